@@ -7,4 +7,4 @@ git apply "$PATCH" || { echo "patch does not apply"; exit 2; }
 cd /verif && ./check $P --tier $TIER 2>&1 | tail -8
 cd /repo && git checkout -- . && git status --short | head -3
 # the generated kernels were re-translated from the mutated source: restore the committed (clean-tree) text
-git -C /verif checkout -- lean/AcryoVerif/Gen
+git -C /verif checkout -- lean/AcryoVerif/Gen evidence
